@@ -430,7 +430,11 @@ class Repository(base.AbstractGitHostObject, base.AbstractRepository):
             raise
 
         for key, status in combined.status.items():
-            cache.BUILD_STATUS_CACHE[key].set(combined.commit, status)
+            # Like the webhook handlers, never replace a successful build
+            # that is already in the cache.
+            cached = cache.BUILD_STATUS_CACHE[key].get(combined.commit, None)
+            if not cached or cached.state != 'SUCCESSFUL':
+                cache.BUILD_STATUS_CACHE[key].set(combined.commit, status)
 
         return combined
 
